@@ -196,7 +196,13 @@ pub fn smol6(a: &Addr) -> Ipv6Address {
 pub fn wrap_for_host(cfg: &NetCfg, src_mac: &Mac, dst_mac: &Mac, ip_pkt: &[u8]) -> Vec<u8> {
     if cfg.ethernet {
         let et = if ip_pkt[0] >> 4 == 6 { eth::ETHERTYPE_IPV6 } else { eth::ETHERTYPE_IPV4 };
-        eth::build(dst_mac, src_mac, et, ip_pkt)
+        let mut f = eth::build(dst_mac, src_mac, et, ip_pkt);
+        // real network interfaces pad short frames to 60 octets (without FCS): half of the short
+        // frames arrive padded, with non-zero filler (the IP length fields say where the packet ends)
+        if f.len() < 60 && ip_pkt.iter().fold(0u8, |a, b| a ^ b) & 1 == 1 {
+            f.resize(60, 0xEE);
+        }
+        f
     } else {
         ip_pkt.to_vec()
     }
